@@ -4,5 +4,4 @@ set -e
 cd "$(dirname "$0")"
 . ./env.sh
 mkdir -p bin evidence replays
-cp /repo/go.sum ./go.sum 2>/dev/null || true
 go build -o bin/verif ./cmd/verif
